@@ -22,6 +22,8 @@ import (
 	"errors"
 	"fmt"
 	"math"
+	"sort"
+	"strings"
 
 	dtu "github.com/siglens/siglens/pkg/common/dtypeutils"
 	putils "github.com/siglens/siglens/pkg/integrations/prometheus/utils"
@@ -240,6 +242,18 @@ func processQueryArithmeticNodeOp(queryOp *structs.QueryArithmetic, resMap map[u
 	return HelperQueryArithmeticAndLogical(queryOp, resMap, opLabelsDoNotNeedToMatch, timeRange, qid)
 }
 
+// The label part of a group id ("{key:value,key:value,") as the sorted list of its "key:value" items: equal for two
+// ids with the same labels, whatever the order of the labels and with or without a comma behind the last one.
+func canonicalLabelSet(labelStr string) string {
+	items := strings.Split(strings.TrimPrefix(labelStr, "{"), ",")
+	sort.Strings(items)
+	first := 0
+	for first < len(items) && items[first] == "" {
+		first++
+	}
+	return strings.Join(items[first:], ",")
+}
+
 func HelperQueryArithmeticAndLogical(queryOp *structs.QueryArithmetic, resMap map[uint64]*mresults.MetricsResult, opLabelsDoNotNeedToMatch bool,
 	timeRange *dtu.MetricsTimeRange, qid uint64) (map[string]map[uint32]float64, *float64, error) {
 
@@ -427,7 +441,23 @@ func HelperQueryArithmeticAndLogical(queryOp *structs.QueryArithmetic, resMap ma
 			}
 		}
 
-		labelStrSet := make(map[string]struct{})
+		// Two group ids belong to the same series of the two vectors when their label sets are equal. The id strings cannot be
+		// compared for that: the order in which the labels were written into an id, and whether the last one is followed by
+		// a comma, depend on the query the vector comes from (matchers, aggregation). So the label sets are compared in a
+		// canonical form.
+		lGroupIDsOfLabelSet := make(map[string][]string)
+		rGroupIDOfLabelSet := make(map[string]string)
+		if !hasVectorMatchingOp && !opLabelsDoNotNeedToMatch {
+			for rGroupID := range resultRHS.Results {
+				if len(rGroupID) >= len(resultRHS.MetricName) {
+					labelSet := canonicalLabelSet(rGroupID[len(resultRHS.MetricName):])
+					if prevID, exists := rGroupIDOfLabelSet[labelSet]; !exists || rGroupID < prevID {
+						rGroupIDOfLabelSet[labelSet] = rGroupID
+					}
+				}
+			}
+		}
+
 		for lGroupID, tsLHS := range resultLHS.Results {
 			// lGroupId is like: metricName{key:value,...
 			// So, if we want to determine whether there are elements with the same labels in another metric, we need to appropriately modify the group ID.
@@ -443,14 +473,14 @@ func HelperQueryArithmeticAndLogical(queryOp *structs.QueryArithmetic, resMap ma
 					continue
 				}
 			} else {
-				labelStr := ""
+				labelSet := ""
 				if len(lGroupID) >= len(resultLHS.MetricName) {
-					labelStr = lGroupID[len(resultLHS.MetricName):]
-					rGroupID = resultRHS.MetricName + labelStr
+					labelSet = canonicalLabelSet(lGroupID[len(resultLHS.MetricName):])
+					rGroupID = rGroupIDOfLabelSet[labelSet]
 				}
 
 				if queryOp.Operation == sutils.LetOr || queryOp.Operation == sutils.LetUnless {
-					labelStrSet[labelStr] = struct{}{}
+					lGroupIDsOfLabelSet[labelSet] = append(lGroupIDsOfLabelSet[labelSet], lGroupID)
 				}
 			}
 
@@ -467,18 +497,19 @@ func HelperQueryArithmeticAndLogical(queryOp *structs.QueryArithmetic, resMap ma
 		}
 		if queryOp.Operation == sutils.LetOr || queryOp.Operation == sutils.LetUnless {
 			for rGroupID, tsRHS := range resultRHS.Results {
-				labelStr := ""
+				labelSet := ""
 				if len(rGroupID) >= len(resultRHS.MetricName) {
-					labelStr = rGroupID[len(resultRHS.MetricName):]
+					labelSet = canonicalLabelSet(rGroupID[len(resultRHS.MetricName):])
 				}
 
 				// For 'unless' op, all matching elements in both vectors are dropped
 				if queryOp.Operation == sutils.LetUnless {
-					lGroupID := resultLHS.MetricName + labelStr
-					delete(finalResult, lGroupID)
+					for _, lGroupID := range lGroupIDsOfLabelSet[labelSet] {
+						delete(finalResult, lGroupID)
+					}
 					continue
 				} else { // For 'or' op, check if the vector on the right has a label set that does not exist in the vector on the left.
-					_, exists := labelStrSet[labelStr]
+					_, exists := lGroupIDsOfLabelSet[labelSet]
 					// If exists, which means we already add that label set when traversing the resultLHS
 					if exists {
 						continue
